@@ -1157,9 +1157,10 @@ fn main() {
 				}
 			}
 			for _ in 0..60 {
-				let mask = (rng.next() as u32 & 0x7ff) | if rng.chance(2, 3) { 0b100_0100 } else { 0 };
+				// mostly without the unknown even types 0, 4, 8, 10 (they end every stream early) and with both required types
+				let mask = ((rng.next() as u32 & 0x7ff) & if rng.chance(3, 4) { !0x511 } else { !0 }) | if rng.chance(2, 3) { 0b100_0100 } else { 0 };
 				let mut recs: Vec<(u64, Vec<u8>)> = (0..11u64).filter(|t| mask >> t & 1 == 1).map(|t| mk(t, &mut rng)).collect();
-				if rng.chance(1, 4) { recs.push(mk(11 + rng.below(1 << 20), &mut rng)); }
+				if rng.chance(1, 4) { recs.push(mk(11 + 2 * rng.below(1 << 20), &mut rng)); }
 				if recs.is_empty() { recs.push(mk(2, &mut rng)); }
 				let i = rng.below(recs.len() as u64) as usize;
 				match rng.below(6) {
